@@ -2149,19 +2149,174 @@ def stream_boundary(ctx, runner):
     st.exhaustive = False
 
 
-def include_facts():
-    """What the implementation says about each shipped include script. -> [{name, sha256, parses, statements, validates, lint}]"""
+# ---------------------------------------------------------------------------------------------------------------------
+# the shipped include directory: EVERY file in it (not only *.bare), through the CLI's system include loader
+# ---------------------------------------------------------------------------------------------------------------------
+# "Every shipped include script" = every file of the package's include directory in the working tree, whatever its extension: the
+# nine *.bare scripts AND the legacy alias scripts *.mds (args.mds, unittest.mds, ...: sentinel check, a deprecation log line, then
+# `include '<name>.bare'` relative to itself - unittest.mds -> unittest.bare -> diff.bare is a shipped way to reach diffLines).
+
+INCLUDE_SKIP = ('__init__.py', '__pycache__')
+INCLUDE_LIMIT = 20000          # statements for one `include <name>` (measured: <= 70 for the largest shipped script with its nested includes)
+INCLUDE_STATEMENT_RE = re.compile(r"^[ \t]*include[ \t]+(?:<([^>\r\n]+)>|'((?:[^'\\\r\n]|\\.)*)')", re.M)
+INCLUDE_PROBES = [(['a', 'b', 'c'], ['a', 'c', 'd']), ('a\r\nb\r\nc', 'a\nb\n'), ('same\ntext', 'same\ntext'), ([], ['a']),
+                  (['b', 'a', 'a'], ['a', 'b', 'a'])]
+INCLUDE_OK = {'parses': True, 'validates': True, 'lint': [], 'cli_static': 0, 'served': 'identical', 'run': 'ok', 'run_path': 'ok',
+              'diff': 'ok | n/a', 'diff_path': 'ok | n/a', 'cli_run': 0, 'cli_file': 0, 'cli_diff': 'ok | n/a'}
+CLI_MANY = '''\
+import contextlib, io, json, sys
+sys.path.insert(0, sys.argv[1])
+from bare_script.bare import main
+out = []
+for argv in json.load(sys.stdin):
+    buf = io.StringIO()
+    try:
+        with contextlib.redirect_stdout(buf):
+            main(argv)
+        code = 'no exit'
+    except SystemExit as exc:
+        code = exc.code
+    except BaseException as exc:
+        code = type(exc).__name__ + ': ' + str(exc)[:200]
+    out.append([code, buf.getvalue()[-4000:]])
+sys.__stdout__.write(json.dumps(out))
+'''
+
+
+def include_dir():
+    return os.path.join(os.path.dirname(os.path.abspath(fw.impl()['bare'].__file__)), 'include')
+
+
+def shipped_files():
+    """-> {name: bytes} for every file shipped in the include directory of the working tree (all extensions; not the package
+    marker __init__.py, not byte-code caches)."""
+    inc_dir = include_dir()
+    out = {}
+    for name in sorted(os.listdir(inc_dir)):
+        path = os.path.join(inc_dir, name)
+        if name in INCLUDE_SKIP or name.endswith(('.pyc', '.pyo')) or not os.path.isfile(path):
+            continue
+        with open(path, 'rb') as fh:
+            out[name] = fh.read()
+    return out
+
+
+def include_reach(files):
+    """-> {name: set of shipped files reached by its include statements, transitively, itself included}; read off the TEXT of the
+    files with a regular expression (independent of parse_script): <x> and 'x' both name a file of the same directory here."""
+    direct = {}
+    for name, raw in files.items():
+        text = raw.decode('utf-8', 'replace')
+        direct[name] = {os.path.basename(a or b) for a, b in INCLUDE_STATEMENT_RE.findall(text)} & set(files)
+    reach = {}
+    for name in files:
+        seen, todo = {name}, [name]
+        while todo:
+            for nxt in direct[todo.pop()]:
+                if nxt not in seen:
+                    seen.add(nxt)
+                    todo.append(nxt)
+        reach[name] = seen
+    return reach
+
+
+def cli_fetch_options(glob, limit, logs=None, path_form=False):
+    """the options the CLI passes to execute_script (bare.py main: fetchFn, systemPrefix, logFn; urlFn as for a script file standing
+    in the include directory when `path_form`) + the statement limit the CLI does not have"""
     m = fw.impl()
     bare = m['bare']
-    inc_dir = os.path.join(os.path.dirname(os.path.abspath(bare.__file__)), 'include')
-    rows = []
-    for name in sorted(fn for fn in os.listdir(inc_dir) if fn.endswith('.bare')):
-        with open(os.path.join(inc_dir, name), 'rb') as fh:
-            text = fh.read().decode('utf-8')
-        row = {'name': name, 'sha256': hashlib.sha256(text.encode('utf-8')).hexdigest(), 'parses': False, 'statements': 0,
-               'validates': False, 'lint': []}
+    opts = {'fetchFn': bare._fetch_include, 'systemPrefix': bare._FETCH_INCLUDE_PREFIX,  # pylint: disable=protected-access
+            'globals': glob, 'maxStatements': limit, 'logFn': (logs if logs is not None else []).append}
+    if path_form:
+        opts['urlFn'] = functools.partial(m['options'].url_file_relative, os.path.join(include_dir(), 'main.bare'))
+    return opts
+
+
+def include_line(name, form):
+    return 'include <%s>' % name if form == 'system' else "include '%s'" % name
+
+
+def run_route(lines, needs_diff):
+    """Execute the include statements `lines` as one script through the CLI fetch options. -> (run, diff): run = 'ok' or the error;
+    diff = 'n/a' (no file of the route reaches diff.bare), 'ok' (diffLines is defined afterwards and reconstructs every probe pair,
+    called in the globals the route left behind), or what failed."""
+    m = fw.impl()
+    glob = {}
+    try:
+        script = m['parser'].parse_script('\n'.join(lines))
+        m['runtime'].execute_script(script, cli_fetch_options(glob, INCLUDE_LIMIT, path_form=any("'" in ln for ln in lines)))
+    except Exception as exc:  # pylint: disable=broad-except
+        return f'{type(exc).__name__}: {exc}'[:300], 'not run'
+    if not needs_diff:
+        return 'ok', 'n/a'
+    if not callable(glob.get('diffLines')):
+        return 'ok', 'diffLines is not defined after the include (%s)' % type(glob.get('diffLines')).__name__
+    call = m['parser'].parse_script(SCRIPT_CALL)
+    for left, right in INCLUDE_PROBES:
+        glob['l'], glob['r'] = clone(left), clone(right)
         try:
-            script = m['parser'].parse_script(text)
+            res = canon(m['runtime'].execute_script(call, cli_fetch_options(glob, statement_budget(left, right))))
+        except Exception as exc:  # pylint: disable=broad-except
+            res = {'error': f'{type(exc).__name__}: {exc}'[:200]}
+        bad = oracle(left, right, res)
+        if bad is not None:
+            return 'ok', {'oracle': bad[0], 'left': left, 'right': right, 'expected': bad[1], 'actual': bad[2]}
+    return 'ok', 'ok'
+
+
+def defined_after(name):
+    """-> the names bound to functions in the globals that `include <name>` leaves behind (None: the include failed)"""
+    m = fw.impl()
+    glob = {}
+    try:
+        m['runtime'].execute_script(m['parser'].parse_script(include_line(name, 'system')), cli_fetch_options(glob, INCLUDE_LIMIT))
+    except Exception:  # pylint: disable=broad-except
+        return None
+    return {k for k, v in glob.items() if callable(v)}
+
+
+def route_bad(run, diff):
+    return run != 'ok' or diff not in ('ok', 'n/a')
+
+
+def cli_many(argvs):
+    """the real command line for every argv list, in ONE process of its own with a timeout (the CLI has no statement limit)
+    -> [[exit status, output tail]]"""
+    if not argvs:
+        return []
+    try:
+        res = subprocess.run([sys.executable, '-c', CLI_MANY, fw.REPO_SRC], input=json.dumps(argvs), capture_output=True, text=True,
+                             timeout=120, check=False)
+        out = json.loads(res.stdout)
+        if len(out) == len(argvs):
+            return out
+        return [['bare CLI runs: %d answers for %d command lines' % (len(out), len(argvs)), '']] * len(argvs)
+    except subprocess.TimeoutExpired:
+        return [['bare CLI did not finish in 120 s', '']] * len(argvs)
+    except ValueError:
+        return [['bare CLI runs: exit %s: %s' % (res.returncode, (res.stdout + res.stderr)[-200:]), '']] * len(argvs)
+
+
+def _lit(x):
+    return "jsonParse('" + json.dumps(x, ensure_ascii=True).replace('\\', '\\\\').replace("'", "\\'") + "')"
+
+
+def include_facts(only=None):
+    """What the implementation says about each shipped include file (every file of the include directory, or the names in `only`).
+    -> [{name, sha256, parses, statements, validates, lint, cli_static, served, run, diff, run_path, diff_path, cli_run, cli_file, cli_diff}]"""
+    m = fw.impl()
+    bare = m['bare']
+    inc_dir = include_dir()
+    files = shipped_files()
+    reach = include_reach(files)
+    rows = []
+    for name, raw in files.items():
+        if only is not None and name not in only:
+            continue
+        row = {'name': name, 'sha256': hashlib.sha256(raw).hexdigest(), 'parses': False, 'statements': 0, 'validates': False, 'lint': [],
+               'reaches_diff': 'diff.bare' in reach[name]}
+        try:
+            script = m['parser'].parse_script(raw.decode('utf-8'))
             row['parses'], row['statements'] = True, len(script['statements'])
             try:
                 m['model'].validate_script(script)
@@ -2182,7 +2337,48 @@ def include_facts():
         except Exception as exc:  # pylint: disable=broad-except
             row['cli_static'] = type(exc).__name__
         row['cli_output'] = buf.getvalue().strip()[-300:]
+        # (a) the CLI's system include loader serves the file under the system prefix, byte for byte
+        try:
+            got = bare._fetch_include({'url': bare._FETCH_INCLUDE_PREFIX + name})  # pylint: disable=protected-access
+            if not isinstance(got, str):
+                row['served'] = 'the loader returned ' + type(got).__name__
+            elif got.encode('utf-8', 'surrogatepass') != raw:
+                row['served'] = 'differs from the shipped file: sha256 ' + hashlib.sha256(got.encode('utf-8', 'surrogatepass')).hexdigest()
+            else:
+                row['served'] = 'identical'
+        except Exception as exc:  # pylint: disable=broad-except
+            row['served'] = f'{type(exc).__name__}: {exc}'[:300]
+        # (c) `include <name>` (system loader) and `include 'name'` (the file by its path) execute; diffLines works where diff.bare is reached
+        row['run'], row['diff'] = run_route([include_line(name, 'system')], row['reaches_diff'])
+        row['run_path'], row['diff_path'] = run_route([include_line(name, 'path')], row['reaches_diff'])
         rows.append(row)
+    # the real command line (one process for all): `bare -c 'include <name>'`, `bare <file>`, and for the routes to diff.bare
+    # `bare -c 'include <name>' -c "systemLog('RESULT ' + jsonStringify(diffLines(L, R)))"`; only what ran within the statement limit
+    left, right = INCLUDE_PROBES[0]
+    jobs = []
+    for row in rows:
+        row['cli_run'] = row['cli_file'] = 'not run'
+        row['cli_diff'] = 'n/a' if not row['reaches_diff'] else 'not run'
+        if row['run'] == 'ok':
+            jobs.append((row, 'cli_run', ['-c', include_line(row['name'], 'system')]))
+            if row['reaches_diff'] and row['diff'] == 'ok':
+                jobs.append((row, 'cli_diff', ['-c', include_line(row['name'], 'system'),
+                                               '-c', "systemLog('RESULT ' + jsonStringify(diffLines(%s, %s)))" % (_lit(left), _lit(right))]))
+        if row['run_path'] == 'ok':
+            jobs.append((row, 'cli_file', [os.path.join(inc_dir, row['name'])]))
+    for (row, key, _), (code, output) in zip(jobs, cli_many([j[2] for j in jobs])):
+        if key != 'cli_diff':
+            row[key] = code if code == 0 else 'exit %s: %s' % (code, output[-200:])
+            continue
+        res = {'error': 'bare CLI exit %s: %s' % (code, output[-200:])}
+        for ln in output.splitlines():
+            if ln.startswith('RESULT '):
+                try:
+                    res = canon(json.loads(ln[len('RESULT '):]))
+                except ValueError:
+                    pass
+        bad = oracle(left, right, res)
+        row[key] = 'ok' if bad is None and code == 0 else {'exit': code, 'oracle': bad and bad[0], 'left': left, 'right': right, 'actual': res}
     return rows
 
 
@@ -2190,28 +2386,78 @@ INCLUDE_KEYS = ('name', 'sha256', 'parses', 'statements', 'validates', 'lint')
 
 
 def include_bad(row):
-    return not (row['parses'] and row['validates'] and row['lint'] == [] and row['cli_static'] == 0)
+    return not (row['parses'] and row['validates'] and row['lint'] == [] and row['cli_static'] == 0 and row['served'] == 'identical'
+                and not route_bad(row['run'], row['diff']) and not route_bad(row['run_path'], row['diff_path'])
+                and row['cli_run'] == 0 and row['cli_file'] == 0 and row['cli_diff'] in ('ok', 'n/a'))
+
+
+def include_sequences(ctx, names):
+    """-> [(forms, names)]: two include statements in ONE script (the second finds the globals - sentinels - of the first): every
+    ordered pair of shipped files incl. the same file twice as system includes; system/path mixes: a rotating sample (quick), all (thorough)"""
+    pairs = [(a, b) for a in names for b in names]
+    out = [(('system', 'system'), p) for p in pairs]
+    mixed = [(f, p) for f in (('path', 'system'), ('system', 'path'), ('path', 'path')) for p in pairs]
+    if ctx.quick:
+        mixed = ctx.rng('includes').sample(mixed, min(len(mixed), 60))
+    return out + mixed
 
 
 def stream_includes(ctx):
-    st = ctx.stream('includes', 'every include/*.bare of the working tree: parse_script succeeds, validate_script accepts the model, '
-                                'lint_script returns [], `bare -s file` exits 0; the table compiled into the driver (= the one the '
-                                'decided theorem is about) must be the table the implementation yields now')
+    st = ctx.stream('includes', 'EVERY file shipped in the include directory of the working tree (directory listing: *.bare AND the legacy alias scripts '
+                                '*.mds and whatever else stands there, except __init__.py / __pycache__): parse_script succeeds, validate_script '
+                                'accepts the model, lint_script returns [], `bare -s file` exits 0; (a) the CLI system include loader '
+                                '(_fetch_include under _FETCH_INCLUDE_PREFIX) serves it byte-identical to the file; (c) `include <name>` and '
+                                '`include \'name\'` execute without error through the CLI fetch options (statement limit set), `bare -c "include '
+                                '<name>"` and `bare <file>` exit 0 (real command line, a process of its own), and where the file reaches diff.bare '
+                                '(include graph read off the file texts: diff.bare, unittest.bare, unittest.mds) diffLines is then defined and '
+                                'reconstructs %d probe pairs (in-process and through `bare -c ... -c ...`). SEQUENCES: two include statements in '
+                                'one script, every ordered pair of shipped files (also the same file twice; alias then target, target then alias) as '
+                                'system includes + system/path mixes: no error, diffLines works when either reaches diff.bare. Compared (implementation against '
+                                'itself): the functions a reached file defines when included alone are all defined after `include <name>`. '
+                                'Lean side: the table Gen/Includes (decided theorem) lists include/*.bare only - for those rows the table compiled '
+                                'into the driver must be the table the implementation yields now; the *.mds rows, the loader, the execution and the '
+                                'sequences are IMPLEMENTATION-SIDE oracles only (no Lean model of the loader / of package data). Non-trivial: the '
+                                'file has statements; a sequence: one of its files itself includes another shipped file' % len(INCLUDE_PROBES))
     rows = include_facts()
     table = None
     if ctx.driver is not None:
         table = {r['name']: r for r in ctx.driver.batch([{'op': 'includes'}])[0].get('includes', [])}
     for row in rows:
-        st.case(row['name'], nontrivial=row['statements'] > 0, tags=['statements<=%d' % next(b for b in (10, 20, 50, 100, 10 ** 9) if row['statements'] <= b)])
-        if table is not None:
+        ext = os.path.splitext(row['name'])[1] or 'none'
+        st.case(row['name'], nontrivial=row['statements'] > 0,
+                tags=['statements<=%d' % next(b for b in (10, 20, 50, 100, 10 ** 9) if row['statements'] <= b), 'ext=' + ext,
+                      'reaches-diff' if row['reaches_diff'] else 'no-diff'])
+        if table is not None and row['name'].endswith('.bare'):
             ctx.compare('includes', row['name'], {k: row[k] for k in INCLUDE_KEYS}, table.get(row['name']))
         if include_bad(row):
-            ctx.witness('include-parses-validates-lintclean', {'include': row['name']},
-                        {'parses': True, 'validates': True, 'lint': [], 'cli_static': 0}, row)
+            ctx.witness('include-parses-validates-lintclean', {'include': row['name']}, INCLUDE_OK, row)
     if table is not None:
-        ctx.compare('includes', 'file list', [r['name'] for r in rows], sorted(table))
+        ctx.compare('includes', 'file list', [r['name'] for r in rows if r['name'].endswith('.bare')], sorted(table))
     if not any(r['name'] == 'diff.bare' for r in rows):
         ctx.witness('include-parses-validates-lintclean', {'include': 'diff.bare'}, 'diff.bare is shipped', [r['name'] for r in rows])
+    # sequences of two includes; a file that fails on its own is reported above, not again in every pair
+    good = {r['name'] for r in rows if not include_bad(r)}
+    reach = include_reach(shipped_files())
+    # nested includes really load what they name: every function a reached file defines when included alone is defined after the
+    # route as well (implementation against itself; a comparison, not an oracle of the property - only diffLines is named there)
+    defined = {name: defined_after(name) for name in sorted(good)}
+    for name in sorted(good):
+        for target in sorted(reach[name] & good - {name}):
+            if defined[name] is not None and defined[target] is not None:
+                ctx.compare('includes', {'include': name, 'reaches': target, 'what': 'functions of the reached file missing after the include'},
+                            sorted(defined[target] - defined[name]), [])
+    reported = 0
+    for forms, names in include_sequences(ctx, sorted(good)):
+        lines = [include_line(n, f) for n, f in zip(names, forms)]
+        needs_diff = any('diff.bare' in reach[n] for n in names)
+        run, diff = run_route(lines, needs_diff)
+        st.case(lines, nontrivial=any(len(reach[n]) > 1 for n in names),
+                tags=['sequence', 'forms=' + '+'.join(forms), 'reaches-diff' if needs_diff else 'no-diff', 'same-file' if names[0] == names[1] else
+                      'alias+target' if reach[names[0]] & reach[names[1]] else 'unrelated'])
+        if route_bad(run, diff) and reported < 5:
+            reported += 1
+            ctx.witness('include-sequence-runs', {'include_route': lines, 'reaches_diff': needs_diff}, {'run': 'ok', 'diff': 'ok | n/a'},
+                        {'run': run, 'diff': diff})
     st.exhaustive = True
 
 
@@ -2257,8 +2503,7 @@ def search(ctx):
 
     for row in include_facts():
         if include_bad(row):
-            ctx.witness('include-parses-validates-lintclean', {'include': row['name']},
-                        {'parses': True, 'validates': True, 'lint': [], 'cli_static': 0}, row)
+            ctx.witness('include-parses-validates-lintclean', {'include': row['name']}, INCLUDE_OK, row)
             return
     def try_host(left, right, name, text):
         impl = runner.host(left, right, text)
@@ -2339,8 +2584,10 @@ def replay_host(inp):
 def replay(witness):
     inp = witness['input']
     if 'include' in inp:
-        rows = [r for r in include_facts() if r['name'] == inp['include']]
+        rows = include_facts(only=[inp['include']])
         return not rows or include_bad(rows[0])
+    if 'include_route' in inp:
+        return route_bad(*run_route(inp['include_route'], inp['reaches_diff']))
     mode = inp.get('mode')
     if mode in ('globals', 'globals-sequence', 'history', 'runs', 'boundary', 'fresh-process', 'prior-use'):
         return replay_host(inp)
@@ -2381,4 +2628,8 @@ LEVEL_NOTE = ('Proof level holds for the parsed program on the machine model. As
               'same values before and edited what it got, the results and the input arrays in place). '
               'If diff.bare changes so that its parsed model differs, BareProofs.C20Prog no longer compiles and these streams + the search are what '
               'produce the concrete failing input. The include facts are those reported by parse_script/validate_script/lint_script of the working '
-              'tree (no Lean model of the linter).')
+              'tree (no Lean model of the linter); the Lean table covers include/*.bare, while the `includes` stream checks EVERY file of the '
+              'shipped include directory (also the legacy *.mds alias scripts) on the implementation only: served byte-identical by the CLI '
+              'system include loader, parses / validates / lint-clean, executes as `include <name>` (in-process with a statement limit and through '
+              'the real command line), diffLines defined and reconstructing on every route that reaches diff.bare, and all ordered pairs of '
+              'shipped files included one after the other in one script.')
